@@ -216,6 +216,12 @@ impl<'a> Tr<'a> {
                     (syn::Member::Unnamed(ix), Ty::Adt(n, targs)) if is_transparent_newtype(n) && targs.len() == 1 && ix.index == 0 => {
                         Ok(Out { pre: a.pre, term: a.term, ty: targs[0].clone(), diverges: false })
                     }
+                    // `range.start` / `range.end` of a `core::ops::Range<T>`, which `conv_ty` reads as the pair `(start, end)`
+                    // (a Rust tuple has no named fields, so a named field of a pair is one of these two)
+                    (syn::Member::Named(id), Ty::Tuple(ts)) if ts.len() == 2 && (id == "start" || id == "end") => {
+                        let k = if id == "start" { 0 } else { 1 };
+                        Ok(Out { pre: a.pre, term: format!("{}{}", a.term, Self::tuple_proj(2, k)), ty: ts[k].clone(), diverges: false })
+                    }
                     (m, Ty::Adt(n, targs)) => {
                         let (fname, fty) = self.field_of(n, m, e.span())?;
                         let fty = subst_params(&fty, &self.adt_subst(n, targs));
@@ -1270,6 +1276,14 @@ impl<'a> Tr<'a> {
             if name == "wrapping_neg" {
                 let opn = self.ph("WrappingNeg", &[&recv.ty]);
                 return Ok(Out { pre: recv.pre, term: format!("({} {})", opn, recv.term), ty: recv.ty, diverges: false });
+            }
+        }
+        // `RangeInclusive::start(&self) -> &T` / `RangeInclusive::end(&self) -> &T` return the bounds the range was built
+        // with (the `exhausted` flag is not consulted); `conv_ty` reads a `RangeInclusive<T>` as `(start, end, exhausted)`
+        if let Ty::Tuple(ts) = &rt {
+            if ts.len() == 3 && matches!(self.sub.shallow(&ts[2]), Ty::Bool) && m.args.is_empty() && (name == "start" || name == "end") {
+                let k = if name == "start" { 0 } else { 1 };
+                return Ok(Out { pre: recv.pre, term: format!("{}{}", recv.term, Self::tuple_proj(3, k)), ty: ts[k].clone(), diverges: false });
             }
         }
         // the `coerce_to_cmp!` idiom: `marker.coerce(&x)` wraps a value of a std type in `CmpWrapper` and hands a
